@@ -130,7 +130,7 @@ def to_json_operator(tokens):
             return Call("cast", list(tokens), {})
         # UNARY OPERATOR
         op = tokens.tokens[0].type.parser_name
-        if is_number(tokens[1]):
+        if isinstance(tokens[1], (int, float)) and not isinstance(tokens[1], bool):
             if op == "neg":
                 return -tokens[1]
             elif op == "pos":
